@@ -553,20 +553,25 @@ Proof.
   inversion Hx; subst. destruct (IH x ltac:(assumption)) as [A B]. destruct (span_blank_n n x) as [a z]. cbn [fst snd] in *.
   split; [constructor; assumption|assumption].
 Qed.
-Lemma led_key_valid pe st k : line_valid (fst st) -> line_valid (snd st) -> chr_valid k ->
-  line_valid (fst (led_key pe st k)) /\ line_valid (snd (led_key pe st k)).
+Lemma reg_chars_valid R c : regs_valid R -> line_valid (reg_chars R c).
 Proof.
-  destruct st as [sb ai]. cbn [fst snd]. intros Hs Ha Hk. unfold led_key.
+  intro HR. unfold reg_chars. destruct (reg_get R c) as [[t ln]|] eqn:E; [|apply lv_nil].
+  apply chop_valid. eapply reg_get_valid; eassumption.
+Qed.
+Definition lst_valid (st : lstate) : Prop := line_valid (fst (fst st)) /\ line_valid (snd (fst st)).
+Lemma led_key_valid R pe st k : regs_valid R -> lst_valid st -> chr_valid k -> lst_valid (led_key R pe st k).
+Proof.
+  destruct st as [[sb ai] pend]. unfold lst_valid. cbn [fst snd]. intros HR [Hs Ha] Hk. unfold led_key.
+  pose proof (fun c => reg_chars_valid R c HR) as HRC.
   repeat match goal with |- context [if ?c then _ else _] => destruct c eqn:? end; cbn [fst snd];
-    repeat split; try assumption; try apply lv_removelast; try apply lv_firstn; try apply lv_nil; try assumption.
-  all: try (apply lv_app; [assumption|]; apply lv_cons; [|apply lv_nil]; first [assumption|apply ascii_valid; lia]).
+    split; try assumption; try apply lv_removelast; try apply lv_firstn; try apply lv_nil; try assumption.
+  all: try (apply lv_app; [assumption|]; first [apply HRC|apply lv_nil|apply lv_cons; [|apply lv_nil]; first [assumption|apply ascii_valid; lia]]).
   all: try (destruct sb as [|c0 r]; [assumption|]; destruct (is_blankc c0); [eapply lv_tl; eassumption|assumption]).
 Qed.
-Lemma led_line_valid pe keys : forall st, line_valid keys -> line_valid (fst st) -> line_valid (snd st) ->
-  line_valid (fst (fold_left (led_key pe) keys st)) /\ line_valid (snd (fold_left (led_key pe) keys st)).
+Lemma led_line_valid R pe keys : regs_valid R -> forall st, line_valid keys -> lst_valid st -> lst_valid (fold_left (led_key R pe) keys st).
 Proof.
-  induction keys as [|k keys IH]; intros st Hk H1 H2; cbn [fold_left]; [split; assumption|].
-  inversion Hk; subst. destruct (led_key_valid pe st k H1 H2 ltac:(assumption)) as [A B]. apply IH; assumption.
+  intro HR. induction keys as [|k keys IH]; intros st Hk H1; cbn [fold_left]; [assumption|].
+  inversion Hk; subst. apply IH; [assumption|]. apply led_key_valid; assumption.
 Qed.
 Lemma split_typed_valid t : line_valid t -> Forall line_valid (split_typed t).
 Proof.
@@ -575,16 +580,16 @@ Proof.
   destruct (split_typed t) as [|s0 ss]; [repeat constructor; assumption|].
   inversion IH; subst. constructor; [constructor; assumption|assumption].
 Qed.
-Lemma led_loop_valid segs : forall pref post ai acc, Forall line_valid segs -> line_valid pref -> line_valid post -> line_valid ai -> line_valid acc ->
-  line_valid (fst (led_loop segs pref post ai acc)) /\ line_valid (snd (led_loop segs pref post ai acc)).
+Lemma led_loop_valid R segs : regs_valid R -> forall pref post ai acc nls, Forall line_valid segs -> line_valid pref -> line_valid post -> line_valid ai -> line_valid acc ->
+  line_valid (fst (fst (led_loop R segs pref post ai acc nls))) /\ line_valid (snd (fst (led_loop R segs pref post ai acc nls))).
 Proof.
-  induction segs as [|seg rest IH]; intros pref post ai acc Hs Hp Hq Ha Hc; cbn [led_loop].
+  intro HR. induction segs as [|seg rest IH]; intros pref post ai acc nls Hs Hp Hq Ha Hc; cbn [led_loop].
   - cbn [fst snd]. split; [apply lv_app; assumption|assumption].
   - inversion Hs; subst. unfold led_line.
     match goal with |- context [fold_left ?f seg ?st] =>
-      destruct (led_line_valid (is_nil pref) seg st ltac:(assumption) lv_nil Ha) as [L1 L2];
-      destruct (fold_left f seg st) as [ln ai'] eqn:EF end. cbn [fst snd] in L1, L2.
-    cbv zeta. match goal with |- context [if is_nil rest then (?a ++ post, post) else _] => set (acc' := a) end.
+      pose proof (led_line_valid R (is_nil pref) seg HR st ltac:(assumption) (conj lv_nil Ha)) as [L1 L2];
+      destruct (fold_left f seg st) as [[ln ai'] pend] eqn:EF end. cbn [fst snd] in L1, L2.
+    cbn [fst]. cbv beta iota zeta. match goal with |- context [if is_nil rest then (?a ++ post, post, _) else _] => set (acc' := a) end.
     assert (Hacc : line_valid acc').
     { assert (H_ai : forall c : bool, line_valid (if c then ai' else [])) by (intros []; [exact L2|apply lv_nil]).
       assert (H_nl : forall c : bool, line_valid (if c then [] else [nlc])) by (intros []; [apply lv_nil|apply nl_line_valid]).
@@ -594,18 +599,18 @@ Proof.
     + apply IH; try assumption; [apply lv_nil|apply span_blank_valid, Hq|].
       destruct (is_nil pref); [apply lv_app; [exact L2|apply lv_firstn, L1]|exact L2].
 Qed.
-Lemma led_input_valid pref post typed : line_valid pref -> line_valid post -> line_valid typed ->
-  line_valid (fst (led_input pref post typed)) /\ line_valid (snd (led_input pref post typed)).
+Lemma led_input_valid R pref post typed : regs_valid R -> line_valid pref -> line_valid post -> line_valid typed ->
+  line_valid (fst (fst (led_input R pref post typed))) /\ line_valid (snd (fst (led_input R pref post typed))).
 Proof.
-  intros Hp Hq Ht. unfold led_input. destruct (span_blank_n_valid ai_max pref Hp) as [A B].
+  intros HR Hp Hq Ht. unfold led_input. destruct (span_blank_n_valid ai_max pref Hp) as [A B].
   destruct (span_blank_n ai_max pref) as [ai pref']. cbn [fst snd] in A, B.
   apply led_loop_valid; try assumption; [apply split_typed_valid, Ht|apply lv_nil].
 Qed.
-Lemma vi_input_valid pref post typed : line_valid pref -> line_valid post -> line_valid typed ->
-  line_valid (fst (fst (fst (vi_input pref post typed)))).
+Lemma vi_input_valid R pref post typed : regs_valid R -> line_valid pref -> line_valid post -> line_valid typed ->
+  line_valid (fst (fst (fst (vi_input R pref post typed)))).
 Proof.
-  intros Hp Hq Ht. unfold vi_input. destruct (led_input_valid pref post typed Hp Hq Ht) as [A _].
-  destruct (led_input pref post typed) as [rep post']. exact A.
+  intros HR Hp Hq Ht. unfold vi_input. destruct (led_input_valid R pref post typed HR Hp Hq Ht) as [A _].
+  destruct (led_input R pref post typed) as [[rep post'] nls]. exact A.
 Qed.
 Lemma vi_indents_valid b r : buf_valid b -> line_valid (vi_indents (getl b r)).
 Proof. intro H. unfold vi_indents. apply span_blank_valid, optl_valid, H. Qed.
@@ -621,9 +626,10 @@ Proof.
   set (pref := if g_ln g then _ else _). set (post := if g_ln g || _ then _ else _).
   assert (Hp : line_valid pref) by (unfold pref; destruct (g_ln g); [apply vi_indents_valid, Hb|apply sub_l_valid, optl_valid, Hb]).
   assert (Hq : line_valid post) by (unfold post; destruct (_ || _); [apply nl_line_valid|apply sub_l_valid, optl_valid, Hb]).
-  pose proof (vi_input_valid pref post typed Hp Hq Ht) as V.
-  destruct (vi_input pref post typed) as [[[rep row] off] nls]. cbn [fst] in V.
-  apply finish_valid; [apply lbuf_edit_valid; assumption|apply reg_put_valid; [exact HR|apply flat_valid, region_text_valid, Hb]].
+  assert (HR' : regs_valid (reg_put R y (flat (region_text b g)) (g_ln g))) by (apply reg_put_valid; [exact HR|apply flat_valid, region_text_valid, Hb]).
+  pose proof (vi_input_valid _ pref post typed HR' Hp Hq Ht) as V.
+  destruct (vi_input _ pref post typed) as [[[rep row] off] nls]. cbn [fst] in V.
+  apply finish_valid; [apply lbuf_edit_valid; assumption|exact HR'].
 Qed.
 Lemma vi_case_valid rows b R s g op : buf_valid b -> regs_valid R -> est_valid (vi_case rows b R s g op).
 Proof.
@@ -705,8 +711,8 @@ Proof.
   set (pref := if line_ins then _ else _). set (post := if line_ins then _ else _).
   assert (Hp : line_valid pref) by (unfold pref; destruct line_ins; [apply sub_l_valid, optl_valid, Hb|apply vi_indents_valid, Hb]).
   assert (Hq : line_valid post) by (unfold post; destruct line_ins; [apply sub_l_valid, optl_valid, Hb|apply nl_line_valid]).
-  pose proof (vi_input_valid pref post typed Hp Hq Ht) as V.
-  destruct (vi_input pref post typed) as [[[rep row] off'] nls]. cbn [fst] in V.
+  pose proof (vi_input_valid (s_regs e) pref post typed HR Hp Hq Ht) as V.
+  destruct (vi_input (s_regs e) pref post typed) as [[[rep row] off'] nls]. cbn [fst] in V.
   destruct (nextlines rows nls _) as [xrow top']. apply finish_valid; [|exact HR].
   apply lbuf_edit_valid; [|exact V]. destruct (_ && _); [|exact Hb]. apply lbuf_edit_valid; [exact Hb|apply nl_line_valid].
 Qed.
@@ -1124,29 +1130,30 @@ Qed.
 (* ---------- i and a with plain text ---------- *)
 Lemma plain_key_spec k : plain_key k = true ->
   N.eqb (b0 k) 8 = false /\ N.eqb (b0 k) 127 = false /\ N.eqb (b0 k) 21 = false /\ N.eqb (b0 k) 23 = false /\
-  N.eqb (b0 k) 20 = false /\ N.eqb (b0 k) 4 = false /\ N.eqb (b0 k) 10 = false.
+  N.eqb (b0 k) 20 = false /\ N.eqb (b0 k) 4 = false /\ N.eqb (b0 k) 22 = false /\ N.eqb (b0 k) 18 = false /\
+  N.eqb (b0 k) 16 = false /\ N.eqb (b0 k) 10 = false.
 Proof.
   unfold plain_key. cbn [existsb]. intro H. apply negb_true_iff in H.
   repeat (apply orb_false_iff in H; destruct H as [? H]). repeat split; assumption.
 Qed.
-Lemma led_line_plain pe typed : forallb plain_key typed = true -> forall sb ai,
-  fold_left (led_key pe) typed (sb, ai) = (sb ++ typed, ai).
+Lemma led_line_plain R pe typed : forallb plain_key typed = true -> forall sb ai,
+  fold_left (led_key R pe) typed (sb, ai, 0%N) = (sb ++ typed, ai, 0%N).
 Proof.
   induction typed as [|k t IH]; intros H sb ai; cbn [fold_left]; [rewrite app_nil_r; reflexivity|].
   cbn [forallb] in H. apply andb_true_iff in H. destruct H as [Hk Ht].
-  destruct (plain_key_spec k Hk) as (A1 & A2 & A3 & A4 & A5 & A6 & _).
-  unfold led_key at 2. rewrite A1, A2, A3, A4, A5, A6. cbn [orb]. rewrite IH by exact Ht. rewrite <- app_assoc. reflexivity.
+  destruct (plain_key_spec k Hk) as (A1 & A2 & A3 & A4 & A5 & A6 & A7 & A8 & A9 & _).
+  unfold led_key at 2. cbn [N.eqb]. rewrite A1, A2, A3, A4, A5, A6, A7, A8, A9. cbn [orb]. rewrite IH by exact Ht. rewrite <- app_assoc. reflexivity.
 Qed.
 Lemma split_typed_plain typed : forallb plain_key typed = true -> split_typed typed = [typed].
 Proof.
   induction typed as [|k t IH]; intro H; cbn [split_typed]; [reflexivity|].
   cbn [forallb] in H. apply andb_true_iff in H. destruct H as [Hk Ht].
-  destruct (plain_key_spec k Hk) as (_ & _ & _ & _ & _ & _ & A7). unfold is_nlb. rewrite A7, IH by exact Ht. reflexivity.
+  destruct (plain_key_spec k Hk) as (_ & _ & _ & _ & _ & _ & _ & _ & _ & A7). unfold is_nlb. rewrite A7, IH by exact Ht. reflexivity.
 Qed.
 Lemma plain_nonl typed : forallb plain_key typed = true -> Forall (fun c : chr => b0 c <> 10%N) typed.
 Proof.
   induction typed as [|k t IH]; intro H; [constructor|]. cbn [forallb] in H. apply andb_true_iff in H. destruct H as [Hk Ht].
-  constructor; [|apply IH, Ht]. destruct (plain_key_spec k Hk) as (_ & _ & _ & _ & _ & _ & A7). apply N.eqb_neq, A7.
+  constructor; [|apply IH, Ht]. destruct (plain_key_spec k Hk) as (_ & _ & _ & _ & _ & _ & _ & _ & _ & A7). apply N.eqb_neq, A7.
 Qed.
 Lemma span_blank_n_app n : forall x, fst (span_blank_n n x) ++ snd (span_blank_n n x) = x.
 Proof.
@@ -1164,13 +1171,19 @@ Proof.
     - cbn [fst length]. split; [lia|]. intros _. lia. }
   intro H. destruct (G ln) as [_ G2]. specialize (G2 H). apply Nat.eqb_neq. lia.
 Qed.
-Lemma led_input_plain pref post typed : forallb plain_key typed = true -> existsb (fun c => negb (is_blankc c)) typed = true ->
-  led_input pref post typed = (pref ++ typed ++ post, post).
+Lemma count_nl_nonl x : Forall (fun c : chr => b0 c <> 10%N) x -> filter is_nlb x = [].
+Proof.
+  induction 1 as [|c x Hc _ IH]; cbn [filter]; [reflexivity|].
+  assert (E : is_nlb c = false) by (unfold is_nlb; apply N.eqb_neq; assumption). rewrite E. exact IH.
+Qed.
+Lemma led_input_plain R pref post typed : forallb plain_key typed = true -> existsb (fun c => negb (is_blankc c)) typed = true ->
+  led_input R pref post typed = (pref ++ typed ++ post, post, 0%nat).
 Proof.
   intros Hp Hnb. unfold led_input. pose proof (span_blank_n_app ai_max pref) as Epref.
   destruct (span_blank_n ai_max pref) as [ai pref']. cbn [fst snd] in Epref.
-  rewrite (split_typed_plain typed Hp). cbn [led_loop]. unfold led_line. rewrite (led_line_plain _ typed Hp). cbn [app is_nil].
-  rewrite (span_blank_nonblank typed Hnb). cbn [negb orb]. rewrite app_nil_r. rewrite <- Epref, <- !app_assoc. reflexivity.
+  rewrite (split_typed_plain typed Hp). cbn [led_loop]. unfold led_line. rewrite (led_line_plain R _ typed Hp). cbn [app is_nil fst].
+  rewrite (span_blank_nonblank typed Hnb). cbn [negb orb]. rewrite app_nil_r. rewrite <- Epref, <- !app_assoc.
+  rewrite (count_nl_nonl typed (plain_nonl typed Hp)). reflexivity.
 Qed.
 Lemma fold_count_nonl x : Forall (fun c : chr => b0 c <> 10%N) x -> forall n0,
   fold_left (fun n c => if is_nlb c then 0 else n + 1) x n0 = n0 + slen x.
@@ -1178,16 +1191,11 @@ Proof.
   induction 1 as [|c x Hc _ IH]; intro n0; cbn [fold_left]; [unfold slen; cbn; lia|].
   assert (E : is_nlb c = false) by (unfold is_nlb; apply N.eqb_neq; assumption). rewrite E, IH. unfold slen. cbn [length]. lia.
 Qed.
-Lemma count_nl_nonl x : Forall (fun c : chr => b0 c <> 10%N) x -> filter is_nlb x = [].
-Proof.
-  induction 1 as [|c x Hc _ IH]; cbn [filter]; [reflexivity|].
-  assert (E : is_nlb c = false) by (unfold is_nlb; apply N.eqb_neq; assumption). rewrite E. exact IH.
-Qed.
-Lemma vi_input_plain pref post typed : forallb plain_key typed = true -> existsb (fun c => negb (is_blankc c)) typed = true ->
+Lemma vi_input_plain R pref post typed : forallb plain_key typed = true -> existsb (fun c => negb (is_blankc c)) typed = true ->
   Forall (fun c : chr => b0 c <> 10%N) pref -> line_wf post ->
-  vi_input pref post typed = (pref ++ typed ++ post, 1, Z.max 0 (slen pref + slen typed - 1), 0%nat).
+  vi_input R pref post typed = (pref ++ typed ++ post, 1, Z.max 0 (slen pref + slen typed - 1), 0%nat).
 Proof.
-  intros Hp Hnb Hpref Hpost. unfold vi_input. rewrite (led_input_plain _ _ _ Hp Hnb). rewrite (split_typed_plain typed Hp).
+  intros Hp Hnb Hpref Hpost. unfold vi_input. rewrite (led_input_plain R _ _ _ Hp Hnb).
   pose proof (plain_nonl typed Hp) as Ht.
   assert (A : count_nl (pref ++ typed ++ post) = 1).
   { destruct Hpost as (pb & -> & Hpb). unfold count_nl.
